@@ -8,11 +8,15 @@ import LiquerModel.Handlers.Paths
 import LiquerModel.Handlers.StoreLayers
 import LiquerModel.Handlers.Store
 import LiquerModel.Handlers.Parse
+import LiquerModel.Handlers.Eval
+import LiquerModel.Handlers.Cache
+import LiquerModel.Handlers.StateTypes
+import LiquerModel.Handlers.Web
 
 open Liquer
 
 def handlers : List (String → List String → Option String) :=
-  [Handlers.store, Handlers.token, Handlers.paths, Handlers.parseH, Handlers.storeLayers]
+  [Handlers.store, Handlers.token, Handlers.paths, Handlers.parseH, Handlers.evalH, Handlers.storeLayers, Handlers.cache, Handlers.stateTypes, Handlers.web]
 
 def answer (line : String) : String :=
   match (line.trimAscii.toString.splitOn " ").filter (· ≠ "") with
